@@ -6,14 +6,14 @@ from kfv.rules import assign_rules as A
 from kfv.rules import spmd_rules as S
 
 TECHNIQUE = ('rank-label dataflow over GPTNeoXAssignment ({pipe}-uniformity of the inverse-worker table, world-uniform group creation), '
-             'role typing of rank lists (DP/MP of self / of the inverse worker) and of the greedy loop, reuse-table check of the stage peer group')
+             'role typing of rank lists (DP/MP of self / of the inverse worker) and of the greedy loop, reuse-table check of the stage peer group; provenance of the local rank; every exit of the role accessors returns the element of the specified intersection')
 EXPLANATION = (
     'All ranks of a stage agree because the inverse-worker table carries at most the label {pipe}; process groups are created '
     'by all ranks with world-uniform arguments in a deterministic order (rule S4/S5; the grid-size tests are justified by J4). '
     'The greedy loop is role-typed: the load table is indexed by position in the stage peer list, the stored worker is '
     'peers[index of minimum load], loads grow by the cost placed, order is by decreasing (cost, name).  The query methods are '
     'intersections of the specified rank lists: factor_worker in DP(inv) & MP(self), src_grad_worker in DP(self) & MP(inv), '
-    'is_grad_worker tests inv in MP(self).  That each intersection has exactly one element is topology arithmetic and not decided.')
+    'is_grad_worker tests inv in MP(self).  That each intersection has exactly one element is topology arithmetic and not decided. The assignment is built for get_rank() of the default group; group creation is never under per-stage control; no early return of the role accessors bypasses the DP/MP intersection.')
 
 NOT_DECIDED = 'cardinality 1 of the rank-list intersections (topology arithmetic)'
 
